@@ -170,6 +170,7 @@ theorem argsImpl_eq_argsSpec (n : Node) (args : List Val) (h : (nodeArity n args
       rw [this]
   | retype tys => rfl
   | retypeReturn r => rfl
+  | retypeReturnRef c t => rfl
   | hideReturn => rfl
   | bindReturn v => rfl
   | trackObj k => rfl
@@ -209,17 +210,138 @@ theorem argsSpec_length (n : Node) (args : List Val) (m : Nat) (h : nodeArity n 
     · simp [hn] at h; simp [argsSpec, hn]; omega
     · simp [hn] at h
   | retypeReturn r => simp [nodeArity] at h; simp [argsSpec]; omega
+  | retypeReturnRef c t => simp [nodeArity] at h; simp [argsSpec]; omega
   | hideReturn => simp [nodeArity] at h; simp [argsSpec]; omega
   | bindReturn v => simp [nodeArity] at h; simp [argsSpec]; omega
   | trackObj k => simp [nodeArity] at h; simp [argsSpec]; omega
 
-theorem callImpl_eq_callSpec (e : FExpr) : ∀ args : List Val, wellTyped e args.length = true →
-    callImpl e args = callSpec e args := by
+/-! ### C10: result forwarding -/
+
+theorem fwdRes_of_ne {m : ResMode} (h : m ≠ .decays) (v : Val) : fwdRes m v = v := by
+  cases m <;> first | rfl | exact absurd rfl h
+
+theorem resultMode_ne_decays (k : ResSite) : resultMode k ≠ .decays := by
+  cases k <;> simp [resultMode]
+
+theorem afRes_of_ne {rm : ResSite → ResMode} (hrm : ∀ k, rm k ≠ .decays) (f : FExpr) (nl : Bool) (v : Val) :
+    afRes rm f nl v = v := by
+  simp only [afRes]
+  split
+  · exact fwdRes_of_ne (hrm _) v
+  · rfl
+
+theorem fwdNode_of_ne {rm : ResSite → ResMode} (hrm : ∀ k, rm k ≠ .decays) (n : Node) (nl : Bool) (v : Val) :
+    fwdNode rm n nl v = v := by
+  simp only [fwdNode]
+  split
+  · exact fwdRes_of_ne (hrm _) v
+  · rfl
+
+theorem Res.map_id' (r : Res ρ) : r.map (fun v => v) = r := by cases r <;> rfl
+
+theorem Outcome.mapRes_id' (o : Outcome) : o.mapRes (fun v => v) = o := by
+  cases o with
+  | mk log res => simp [Outcome.mapRes, Res.map_id']
+
+/-- with a table without decaying rows every call operator (either overload) hands the wrapped functor's result on
+    unchanged: the equations of `callImplT` in the plain form -/
+theorem callImplT_un {rm : ResSite → ResMode} (hrm : ∀ k, rm k ≠ .decays) (n : Node) (f : FExpr) (ex : Bool)
+    (args : List Val) :
+    callImplT rm (.un n f) ex args = (callImplT rm f n.innerExplicit (argsImpl n args)).mapRes (resOf n) := by
+  simp only [callImplT]
+  congr 1
+  funext v
+  rw [afRes_of_ne hrm, fwdNode_of_ne hrm]
+
+theorem callImplT_compose1 {rm : ResSite → ResMode} (hrm : ∀ k, rm k ≠ .decays) (s g : FExpr) (ex : Bool)
+    (args : List Val) :
+    callImplT rm (.compose1 s g) ex args
+      = (callImplT rm g false args).andThen (fun v => callImplT rm s false [v]) := by
+  simp only [callImplT]
+  congr 1
+  funext v
+  have : (fun r => fwdRes (rm .compose1) (afRes rm s false r)) = (fun r => r) := by
+    funext r; rw [afRes_of_ne hrm, fwdRes_of_ne (hrm _)]
+  rw [this, Outcome.mapRes_id', fwdRes_of_ne (hrm _)]
+
+theorem callImplT_compose2 {rm : ResSite → ResMode} (hrm : ∀ k, rm k ≠ .decays) (s g1 g2 : FExpr) (ex : Bool)
+    (args : List Val) :
+    callImplT rm (.compose2 s g1 g2) ex args
+      = (callImplT rm g1 false args).andThen (fun v1 => (callImplT rm g2 false args).andThen
+          (fun v2 => callImplT rm s false [v1, v2])) := by
+  simp only [callImplT]
+  congr 1
+  funext v1
+  congr 1
+  funext v2
+  have : (fun r => fwdRes (rm .compose2) (afRes rm s false r)) = (fun r => r) := by
+    funext r; rw [afRes_of_ne hrm, fwdRes_of_ne (hrm _)]
+  rw [this, Outcome.mapRes_id', fwdRes_of_ne (hrm _), fwdRes_of_ne (hrm _)]
+
+theorem callImplT_exceptionCatch {rm : ResSite → ResMode} (hrm : ∀ k, rm k ≠ .decays) (f c : FExpr) (ex : Bool)
+    (args : List Val) :
+    callImplT rm (.exceptionCatch f c) ex args
+      = (callImplT rm f false args).orCatch (callImplT rm c false []) := by
+  simp only [callImplT]
+  have h1 : ∀ site, (fun v => fwdRes (rm site) (afRes rm f (nullary false args) v)) = (fun v => v) := by
+    intro site; funext r; rw [afRes_of_ne hrm, fwdRes_of_ne (hrm _)]
+  have h2 : ∀ site, fwdRes (rm site) = (fun v => v) := by
+    intro site; funext r; rw [fwdRes_of_ne (hrm _)]
+  rw [h1, h2, Outcome.mapRes_id', Outcome.mapRes_id']
+
+/-- without a decaying row the spelling of the call (`.template operator()<...>` or not) makes no difference -/
+theorem callImplT_explicit {rm : ResSite → ResMode} (hrm : ∀ k, rm k ≠ .decays) (e : FExpr) (ex : Bool)
+    (args : List Val) : callImplT rm e ex args = callImplT rm e false args := by
+  cases e with
+  | leaf id ps ret thr => rfl
+  | vleaf id ret thr => rfl
+  | rleaf id ps c t thr => rfl
+  | pleaf id ps ret thr => rfl
+  | un n f => rw [callImplT_un hrm, callImplT_un hrm]
+  | compose1 s g => rw [callImplT_compose1 hrm, callImplT_compose1 hrm]
+  | compose2 s g1 g2 => rw [callImplT_compose2 hrm, callImplT_compose2 hrm]
+  | exceptionCatch f c => rw [callImplT_exceptionCatch hrm, callImplT_exceptionCatch hrm]
+
+/-- the equations of `callImpl` (the current table) -/
+theorem callImpl_leaf (id : Nat) (ps : List Ty) (ret : Option Ty) (thr : Bool) (args : List Val) :
+    callImpl (.leaf id ps ret thr) args
+      = ⟨[⟨id, List.zipWith conv ps args⟩], if thr then .threw else .ok (leafRet id ret (List.zipWith conv ps args))⟩ := rfl
+
+theorem callImpl_un (n : Node) (f : FExpr) (args : List Val) :
+    callImpl (.un n f) args = (callImpl f (argsImpl n args)).mapRes (resOf n) := by
+  simp only [callImpl]
+  rw [callImplT_un resultMode_ne_decays, callImplT_explicit resultMode_ne_decays]
+
+theorem callImpl_compose1 (s g : FExpr) (args : List Val) :
+    callImpl (.compose1 s g) args = (callImpl g args).andThen (fun v => callImpl s [v]) :=
+  callImplT_compose1 resultMode_ne_decays s g false args
+
+theorem callImpl_compose2 (s g1 g2 : FExpr) (args : List Val) :
+    callImpl (.compose2 s g1 g2) args
+      = (callImpl g1 args).andThen (fun v1 => (callImpl g2 args).andThen (fun v2 => callImpl s [v1, v2])) :=
+  callImplT_compose2 resultMode_ne_decays s g1 g2 false args
+
+theorem callImpl_exceptionCatch (f c : FExpr) (args : List Val) :
+    callImpl (.exceptionCatch f c) args
+      = (callImpl f args).orCatch (callImpl c []) :=
+  callImplT_exceptionCatch resultMode_ne_decays f c false args
+
+/-- `slot_call::call_it` (explicit template arguments) calls the functor like a direct call does -/
+theorem callIt_eq (s : SlotM) (args : List Val) : callIt s args = (callImpl s.f args).mapRes (retConv s.ret) := by
+  simp only [callIt, callImpl]
+  rw [callImplT_explicit resultMode_ne_decays]
+
+/-- for every result-forwarding table without a decaying row, the code equals the documentation — results
+    included: a reference result is the reference to the same object -/
+theorem callImplT_eq_callSpec (rm : ResSite → ResMode) (hrm : ∀ k, rm k ≠ .decays) (e : FExpr) :
+    ∀ (ex : Bool) (args : List Val), wellTyped e args.length = true → callImplT rm e ex args = callSpec e args := by
   induction e with
-  | leaf id ps ret thr => intro args _; rfl
-  | vleaf id ret thr => intro args _; rfl
+  | leaf id ps ret thr => intro ex args _; rfl
+  | vleaf id ret thr => intro ex args _; rfl
+  | rleaf id ps c t thr => intro ex args _; rfl
+  | pleaf id ps ret thr => intro ex args _; rfl
   | un n f ih =>
-    intro args h
+    intro ex args h
     simp only [wellTyped, Bool.and_eq_true] at h
     obtain ⟨h1, _⟩ := h
     cases hn : nodeArity n args.length with
@@ -228,33 +350,62 @@ theorem callImpl_eq_callSpec (e : FExpr) : ∀ args : List Val, wellTyped e args
       simp only [hn] at h1
       have hs := argsImpl_eq_argsSpec n args (by simp [hn])
       have hl := argsSpec_length n args m hn
-      simp only [callImpl, callSpec, hs]
-      rw [ih (argsSpec n args) (by rw [hl]; exact h1)]
+      rw [callImplT_un hrm]
+      simp only [callSpec, hs]
+      rw [ih _ (argsSpec n args) (by rw [hl]; exact h1)]
   | compose1 s g ihs ihg =>
-    intro args h
+    intro ex args h
     simp only [wellTyped, Bool.and_eq_true] at h
-    simp only [callImpl, callSpec]
-    rw [ihg args h.1]
-    have : (fun v => callImpl s [v]) = (fun v => callSpec s [v]) := by
-      funext v; exact ihs [v] h.2
+    rw [callImplT_compose1 hrm]
+    simp only [callSpec]
+    rw [ihg false args h.1]
+    have : (fun v => callImplT rm s false [v]) = (fun v => callSpec s [v]) := by
+      funext v; exact ihs false [v] h.2
     rw [this]
   | compose2 s g1 g2 ihs ih1 ih2 =>
-    intro args h
+    intro ex args h
     simp only [wellTyped, Bool.and_eq_true] at h
-    simp only [callImpl, callSpec]
-    rw [ih1 args h.1.1, ih2 args h.1.2]
-    have : (fun v1 => (callSpec g2 args).andThen (fun v2 => callImpl s [v1, v2]))
+    rw [callImplT_compose2 hrm]
+    simp only [callSpec]
+    rw [ih1 false args h.1.1, ih2 false args h.1.2]
+    have : (fun v1 => (callSpec g2 args).andThen (fun v2 => callImplT rm s false [v1, v2]))
          = (fun v1 => (callSpec g2 args).andThen (fun v2 => callSpec s [v1, v2])) := by
       funext v1
-      have : (fun v2 => callImpl s [v1, v2]) = (fun v2 => callSpec s [v1, v2]) := by
-        funext v2; exact ihs [v1, v2] h.2
+      have : (fun v2 => callImplT rm s false [v1, v2]) = (fun v2 => callSpec s [v1, v2]) := by
+        funext v2; exact ihs false [v1, v2] h.2
       rw [this]
     rw [this]
   | exceptionCatch f c ihf ihc =>
-    intro args h
+    intro ex args h
     simp only [wellTyped, Bool.and_eq_true] at h
-    simp only [callImpl, callSpec]
-    rw [ihf args h.1, ihc [] h.2]
+    rw [callImplT_exceptionCatch hrm]
+    simp only [callSpec]
+    rw [ihf false args h.1, ihc false [] h.2]
+
+theorem callImpl_eq_callSpec (e : FExpr) (args : List Val) (h : wellTyped e args.length = true) :
+    callImpl e args = callSpec e args :=
+  callImplT_eq_callSpec resultMode resultMode_ne_decays e false args h
+
+/-- `bind_return(f, std::ref(x))` returns the reference to `x`: nullary and n-ary, nested, as a getter -/
+theorem bindReturn_ref_result (f : FExpr) (c : Bool) (t : Ty) (cell : Nat) (n : Int) :
+    let br := FExpr.un (.bindReturn (.ref c t cell n)) f
+    (∀ args v, (callImpl f args).res = .ok v → (callImpl br args).res = .ok (.ref c t cell n))
+    ∧ (∀ v, (callImpl f []).res = .ok v → (callImpl br []).res = .ok (.ref c t cell n))
+    ∧ (∀ nd : Node, nd.forwards = true → ∀ args v, (callImpl f (argsImpl nd args)).res = .ok v →
+        (callImpl (.un nd br) args).res = .ok (.ref c t cell n))
+    ∧ (∀ s args v, (callImpl f args).res = .ok v →
+        (callImpl (.compose1 s br) args).res = (callImpl s [.ref c t cell n]).res) := by
+  refine ⟨?_, ?_, ?_, ?_⟩
+  · intro args v h; simp [callImpl_un, argsImpl, Outcome.mapRes, h, Res.map, resOf]
+  · intro v h; simp [callImpl_un, argsImpl, Outcome.mapRes, h, Res.map, resOf]
+  · intro nd hk args v h
+    rw [callImpl_un, callImpl_un]
+    have : argsImpl (.bindReturn (.ref c t cell n)) (argsImpl nd args) = argsImpl nd args := rfl
+    simp only [this, Outcome.mapRes, h, Res.map, resOf]
+    cases nd <;> simp [Node.forwards] at hk <;> rfl
+  · intro s args v h
+    simp [callImpl_compose1, callImpl_un, argsImpl, Outcome.andThen, Outcome.mapRes, h, Res.map, resOf]
+
 
 /-! ### C11: generic facts -/
 
@@ -428,6 +579,21 @@ theorem thread_enter_inv {n0 hops0} (ex : Bool) (h : Heap) (args : List ARef) (h
       ∧ ∀ a ∈ (thread (enterArg .forwardingRef ex) h args).2, ArgInv n0 a :=
   thread_inv _ (HeapInv n0 hops0) (ArgInv n0) (ArgInv n0) (fun h a => enterArg_fwd_inv ex h a) args h hi ha
 
+theorem passOn_inv {n0} (p : PassKind) (a : ARef) (ha : ArgInv n0 a) : ArgInv n0 (passOn p a) := by
+  cases p with
+  | forward => exact ha
+  | named => exact named_inv a ha
+
+theorem thread_enter_pass_inv {n0 hops0} (p : PassKind) (ex : Bool) (h : Heap) (args : List ARef)
+    (hi : HeapInv n0 hops0 h) (ha : ∀ a ∈ args, ArgInv n0 a) :
+    HeapInv n0 hops0 (thread (enterArg .forwardingRef ex) h args).1
+      ∧ ∀ a ∈ (thread (enterArg .forwardingRef ex) h args).2.map (passOn p), ArgInv n0 a := by
+  have e1 := thread_enter_inv ex h args hi ha
+  refine ⟨e1.1, ?_⟩
+  intro a hmem
+  obtain ⟨a', ha', rfl⟩ := List.mem_map.mp hmem
+  exact passOn_inv p a' (e1.2 a' ha')
+
 theorem thread_tuple_inv {n0 hops0} (h : Heap) (args : List ARef) (hi : HeapInv n0 hops0 h)
     (ha : ∀ a ∈ args, ArgInv n0 a) :
     HeapInv n0 hops0 (thread tupleElem h args).1 ∧ ∀ a ∈ (thread tupleElem h args).2, ArgInv n0 a :=
@@ -441,9 +607,10 @@ theorem mem_invokeEach {n0} {bs : List Bound} {x : ARef} (h : x ∈ invokeEach B
 /-- every adaptor hop keeps the invariant: it allocates only temporaries, never copies a pre-existing object in a
     library call operator, and hands on arguments that still denote their designated objects -/
 theorem args_inv {n0 hops0} (pk : AdaptorKind → ParamKind) (hpk : ∀ k, pk k = .forwardingRef)
+    (ps : AdaptorKind → PassKind)
     (n : ONode) (ex : Bool) (h : Heap) (args : List ARef) (hn : n.noRRef = true)
     (hi : HeapInv n0 hops0 h) (ha : ∀ a ∈ args, ArgInv n0 a) :
-    HeapInv n0 hops0 (n.args pk ex h args).1 ∧ ∀ a ∈ (n.args pk ex h args).2, ArgInv n0 a := by
+    HeapInv n0 hops0 (n.args pk ps ex h args).1 ∧ ∀ a ∈ (n.args pk ps ex h args).2, ArgInv n0 a := by
   cases n with
   | slot sig =>
     simp only [ONode.args]
@@ -496,12 +663,12 @@ theorem args_inv {n0 hops0} (pk : AdaptorKind → ParamKind) (hpk : ∀ k, pk k 
     intro hk
     rw [hk] at this
     simp [ONode.noRRef, this.1] at hn
-  | retypeReturn => simp only [ONode.args, hpk]; exact thread_enter_inv ex h args hi ha
-  | hideReturn => simp only [ONode.args, hpk]; exact thread_enter_inv ex h args hi ha
-  | bindReturn v => simp only [ONode.args, hpk]; exact thread_enter_inv ex h args hi ha
-  | exceptionCatch => simp only [ONode.args, hpk]; exact thread_enter_inv ex h args hi ha
-  | trackObj => simp only [ONode.args, hpk]; exact thread_enter_inv ex h args hi ha
-  | compose1 sid => simp only [ONode.args, hpk]; exact thread_enter_inv ex h args hi ha
+  | retypeReturn => simp only [ONode.args, hpk]; exact thread_enter_pass_inv _ ex h args hi ha
+  | hideReturn => simp only [ONode.args, hpk]; exact thread_enter_pass_inv _ ex h args hi ha
+  | bindReturn v => simp only [ONode.args, hpk]; exact thread_enter_pass_inv _ ex h args hi ha
+  | exceptionCatch => simp only [ONode.args, hpk]; exact thread_enter_pass_inv _ ex h args hi ha
+  | trackObj => simp only [ONode.args, hpk]; exact thread_enter_pass_inv _ ex h args hi ha
+  | compose1 sid => simp only [ONode.args, hpk]; exact thread_enter_pass_inv _ ex h args hi ha
 
 /-! ### C11: the target -/
 
@@ -555,32 +722,30 @@ theorem leafRun_inv {n0 hops0} (id : Nat) (ptr : Bool) (ps : List PK) (retv : Bo
   exact ⟨this, by simpa [Rec.ok] using e2.2⟩
 
 /-- the invariant holds along the whole invocation of any functor expression -/
-theorem callO_inv {n0 hops0} (pk : AdaptorKind → ParamKind) (hpk : ∀ k, pk k = .forwardingRef) (e : OExpr) :
+theorem callO_inv {n0 hops0} (pk : AdaptorKind → ParamKind) (hpk : ∀ k, pk k = .forwardingRef)
+    (ps : AdaptorKind → PassKind) (e : OExpr) :
     ∀ (ex : Bool) (args : List ARef) (h : Heap), e.noRRef = true → HeapInv n0 hops0 h →
-      (∀ a ∈ args, ArgInv n0 a) → HeapInv n0 hops0 (callO pk e ex args h).1 := by
+      (∀ a ∈ args, ArgInv n0 a) → HeapInv n0 hops0 (callO pk ps e ex args h).1 := by
   induction e with
-  | leaf id ptr ps retv =>
+  | leaf id ptr pks retv =>
     intro ex args h _ hi ha
     simp only [callO, hpk]
-    have e1 := thread_enter_inv ex h args hi ha
-    exact leafRun_inv id ptr ps retv _ _ e1.1 (fun a hm => (e1.2 a hm).2)
+    have e1 := thread_enter_pass_inv (ps .adaptorFunctor) ex h args hi ha
+    exact leafRun_inv id ptr pks retv _ _ e1.1 (fun a hm => (e1.2 a hm).2)
   | un n f ih =>
     intro ex args h hn hi ha
     simp only [OExpr.noRRef, Bool.and_eq_true] at hn
     simp only [callO]
-    have e1 := args_inv pk hpk n ex h args hn.1 hi ha
+    have e1 := args_inv pk hpk ps n ex h args hn.1 hi ha
     exact ih _ _ _ hn.2 e1.1 e1.2
   | compose2 sid g1 g2 ih1 ih2 =>
     intro ex args h hn hi ha
     simp only [OExpr.noRRef, Bool.and_eq_true] at hn
     simp only [callO, hpk]
-    have e1 := thread_enter_inv ex h args hi ha
-    have hnamed : ∀ a ∈ (thread (enterArg .forwardingRef ex) h args).2.map
-        (fun a => { a with cat := a.cat.named }), ArgInv n0 a := by
-      intro a hmem
-      obtain ⟨a', ha', rfl⟩ := List.mem_map.mp hmem
-      exact named_inv a' (e1.2 a' ha')
-    have o1 := ih1 false _ _ hn.1 e1.1 hnamed
+    have e1 := thread_enter_pass_inv (ps .compose2) ex h args hi ha
+    have hnamed := e1.2
+    have e1 := e1.1
+    have o1 := ih1 false _ _ hn.1 e1 hnamed
     split
     · exact o1
     · exact ih2 false _ _ hn.2 o1 hnamed
@@ -816,6 +981,21 @@ theorem thread_enter_frame {o v} (ex : Bool) (h : Heap) (args : List ARef) (hf :
       ∧ ∀ a ∈ (thread (enterArg .forwardingRef ex) h args).2, NoW o a :=
   thread_inv _ (Frame o v) (NoW o) (NoW o) (fun h a => enterArg_fwd_frame ex h a) args h hf ha
 
+theorem passOn_frame {o} (p : PassKind) (a : ARef) (ha : NoW o a) : NoW o (passOn p a) := by
+  cases p with
+  | forward => exact ha
+  | named => exact named_frame a ha
+
+theorem thread_enter_pass_frame {o v} (p : PassKind) (ex : Bool) (h : Heap) (args : List ARef) (hf : Frame o v h)
+    (ha : ∀ a ∈ args, NoW o a) :
+    Frame o v (thread (enterArg .forwardingRef ex) h args).1
+      ∧ ∀ a ∈ (thread (enterArg .forwardingRef ex) h args).2.map (passOn p), NoW o a := by
+  have e1 := thread_enter_frame ex h args hf ha
+  refine ⟨e1.1, ?_⟩
+  intro a hmem
+  obtain ⟨a', ha', rfl⟩ := List.mem_map.mp hmem
+  exact passOn_frame p a' (e1.2 a' ha')
+
 theorem thread_tuple_frame {o v} (h : Heap) (args : List ARef) (hf : Frame o v h) (ha : ∀ a ∈ args, NoW o a) :
     Frame o v (thread tupleElem h args).1 ∧ ∀ a ∈ (thread tupleElem h args).2, NoW o a :=
   thread_inv _ (Frame o v) (NoW o) (NoW o) (fun h a => tupleElem_frame h a) args h hf ha
@@ -834,9 +1014,10 @@ theorem mem_invokeEach_frame {o} {bs : List Bound} {x : ARef} (hb : o ∉ bs.fla
   exact List.mem_flatMap.mpr ⟨b, hbm, hm⟩
 
 theorem args_frame {o v} (pk : AdaptorKind → ParamKind) (hpk : ∀ k, pk k = .forwardingRef)
+    (ps : AdaptorKind → PassKind)
     (n : ONode) (ex : Bool) (h : Heap) (args : List ARef) (hb : o ∉ n.boundMut)
     (hf : Frame o v h) (ha : ∀ a ∈ args, NoW o a) :
-    Frame o v (n.args pk ex h args).1 ∧ ∀ a ∈ (n.args pk ex h args).2, NoW o a := by
+    Frame o v (n.args pk ps ex h args).1 ∧ ∀ a ∈ (n.args pk ps ex h args).2, NoW o a := by
   cases n with
   | slot sig =>
     simp only [ONode.args]
@@ -881,12 +1062,12 @@ theorem args_frame {o v} (pk : AdaptorKind → ParamKind) (hpk : ∀ k, pk k = .
     have e1 := thread_enter_frame ex h args hf ha
     exact thread_inv castTo (Frame o v) (fun ka => NoW o ka.2) (NoW o)
       (fun h ka => castTo_frame h ka) _ _ e1.1 (fun ka hka => e1.2 _ (mem_zip' hka).2)
-  | retypeReturn => simp only [ONode.args, hpk]; exact thread_enter_frame ex h args hf ha
-  | hideReturn => simp only [ONode.args, hpk]; exact thread_enter_frame ex h args hf ha
-  | bindReturn v => simp only [ONode.args, hpk]; exact thread_enter_frame ex h args hf ha
-  | exceptionCatch => simp only [ONode.args, hpk]; exact thread_enter_frame ex h args hf ha
-  | trackObj => simp only [ONode.args, hpk]; exact thread_enter_frame ex h args hf ha
-  | compose1 sid => simp only [ONode.args, hpk]; exact thread_enter_frame ex h args hf ha
+  | retypeReturn => simp only [ONode.args, hpk]; exact thread_enter_pass_frame _ ex h args hf ha
+  | hideReturn => simp only [ONode.args, hpk]; exact thread_enter_pass_frame _ ex h args hf ha
+  | bindReturn v => simp only [ONode.args, hpk]; exact thread_enter_pass_frame _ ex h args hf ha
+  | exceptionCatch => simp only [ONode.args, hpk]; exact thread_enter_pass_frame _ ex h args hf ha
+  | trackObj => simp only [ONode.args, hpk]; exact thread_enter_pass_frame _ ex h args hf ha
+  | compose1 sid => simp only [ONode.args, hpk]; exact thread_enter_pass_frame _ ex h args hf ha
 
 def LParamNoW (o : Nat) (p : LParam) : Prop := p.writable = true → p.recv ≠ o
 
@@ -937,32 +1118,29 @@ theorem leafRun_frame {o v} (id : Nat) (ptr : Bool) (ps : List PK) (retv : Bool)
 theorem boundMut_un (n : ONode) (f : OExpr) : (OExpr.un n f).boundMut = n.boundMut ++ f.boundMut := by
   cases n <;> simp [OExpr.boundMut, ONode.boundMut]
 
-theorem callO_frame {o v} (pk : AdaptorKind → ParamKind) (hpk : ∀ k, pk k = .forwardingRef) (e : OExpr) :
+theorem callO_frame {o v} (pk : AdaptorKind → ParamKind) (hpk : ∀ k, pk k = .forwardingRef)
+    (ps : AdaptorKind → PassKind) (e : OExpr) :
     ∀ (ex : Bool) (args : List ARef) (h : Heap), o ∉ e.boundMut → Frame o v h →
-      (∀ a ∈ args, NoW o a) → Frame o v (callO pk e ex args h).1 := by
+      (∀ a ∈ args, NoW o a) → Frame o v (callO pk ps e ex args h).1 := by
   induction e with
-  | leaf id ptr ps retv =>
+  | leaf id ptr pks retv =>
     intro ex args h _ hf ha
     simp only [callO, hpk]
-    have e1 := thread_enter_frame ex h args hf ha
-    exact leafRun_frame id ptr ps retv _ _ e1.1 e1.2
+    have e1 := thread_enter_pass_frame (ps .adaptorFunctor) ex h args hf ha
+    exact leafRun_frame id ptr pks retv _ _ e1.1 e1.2
   | un n f ih =>
     intro ex args h hb hf ha
     rw [boundMut_un] at hb
     simp only [List.mem_append, not_or] at hb
     simp only [callO]
-    have e1 := args_frame pk hpk n ex h args hb.1 hf ha
+    have e1 := args_frame pk hpk ps n ex h args hb.1 hf ha
     exact ih _ _ _ hb.2 e1.1 e1.2
   | compose2 sid g1 g2 ih1 ih2 =>
     intro ex args h hb hf ha
     simp only [OExpr.boundMut, List.mem_append, not_or] at hb
     simp only [callO, hpk]
-    have e1 := thread_enter_frame ex h args hf ha
-    have hnamed : ∀ a ∈ (thread (enterArg .forwardingRef ex) h args).2.map
-        (fun a => { a with cat := a.cat.named }), NoW o a := by
-      intro a hmem
-      obtain ⟨a', ha', rfl⟩ := List.mem_map.mp hmem
-      exact named_frame a' (e1.2 a' ha')
+    have e1 := thread_enter_pass_frame (ps .compose2) ex h args hf ha
+    have hnamed := e1.2
     have o1 := ih1 false _ _ hb.1 e1.1 hnamed
     split
     · exact o1
@@ -981,35 +1159,304 @@ theorem thread_enter_obj {n0 hops0} (ex : Bool) (h : Heap) (args : List ARef) (h
       ∧ ∀ a ∈ (thread (enterArg .forwardingRef ex) h args).2, ObjInv a :=
   thread_inv _ (HeapInv n0 hops0) ObjInv ObjInv (fun h a => enterArg_fwd_obj ex h a) args h hi ha
 
-theorem callO_fwd_inv {n0 hops0} (pk : AdaptorKind → ParamKind) (hpk : ∀ k, pk k = .forwardingRef) (e : OExpr) :
+theorem passOn_obj (p : PassKind) (a : ARef) (ha : ObjInv a) : ObjInv (passOn p a) := by
+  cases p <;> exact ha
+
+theorem thread_enter_pass_obj {n0 hops0} (p : PassKind) (ex : Bool) (h : Heap) (args : List ARef)
+    (hi : HeapInv n0 hops0 h) (ha : ∀ a ∈ args, ObjInv a) :
+    HeapInv n0 hops0 (thread (enterArg .forwardingRef ex) h args).1
+      ∧ ∀ a ∈ (thread (enterArg .forwardingRef ex) h args).2.map (passOn p), ObjInv a := by
+  have e1 := thread_enter_obj ex h args hi ha
+  refine ⟨e1.1, ?_⟩
+  intro a hmem
+  obtain ⟨a', ha', rfl⟩ := List.mem_map.mp hmem
+  exact passOn_obj p a' (e1.2 a' ha')
+
+theorem callO_fwd_inv {n0 hops0} (pk : AdaptorKind → ParamKind) (hpk : ∀ k, pk k = .forwardingRef)
+    (ps : AdaptorKind → PassKind) (e : OExpr) :
     ∀ (ex : Bool) (args : List ARef) (h : Heap), e.fwdOnly = true → HeapInv n0 hops0 h →
-      (∀ a ∈ args, ObjInv a) → HeapInv n0 hops0 (callO pk e ex args h).1 := by
+      (∀ a ∈ args, ObjInv a) → HeapInv n0 hops0 (callO pk ps e ex args h).1 := by
   induction e with
-  | leaf id ptr ps retv =>
+  | leaf id ptr pks retv =>
     intro ex args h _ hi ha
     simp only [callO, hpk]
-    have e1 := thread_enter_obj ex h args hi ha
-    exact leafRun_inv id ptr ps retv _ _ e1.1 e1.2
+    have e1 := thread_enter_pass_obj (ps .adaptorFunctor) ex h args hi ha
+    exact leafRun_inv id ptr pks retv _ _ e1.1 e1.2
   | un n f ih =>
     intro ex args h hn hi ha
     simp only [OExpr.fwdOnly, Bool.and_eq_true] at hn
     simp only [callO]
-    have e1 : HeapInv n0 hops0 (n.args pk ex h args).1 ∧ ∀ a ∈ (n.args pk ex h args).2, ObjInv a := by
-      cases n <;> simp [ONode.fwd] at hn <;> simp only [ONode.args, hpk] <;> exact thread_enter_obj ex h args hi ha
+    have e1 : HeapInv n0 hops0 (n.args pk ps ex h args).1 ∧ ∀ a ∈ (n.args pk ps ex h args).2, ObjInv a := by
+      cases n <;> simp [ONode.fwd] at hn <;> simp only [ONode.args, hpk] <;>
+        exact thread_enter_pass_obj _ ex h args hi ha
     exact ih _ _ _ hn.2 e1.1 e1.2
   | compose2 sid g1 g2 ih1 ih2 =>
     intro ex args h hn hi ha
     simp only [OExpr.fwdOnly, Bool.and_eq_true] at hn
     simp only [callO, hpk]
-    have e1 := thread_enter_obj ex h args hi ha
-    have hnamed : ∀ a ∈ (thread (enterArg .forwardingRef ex) h args).2.map
-        (fun a => { a with cat := a.cat.named }), ObjInv a := by
-      intro a hmem
-      obtain ⟨a', ha', rfl⟩ := List.mem_map.mp hmem
-      exact e1.2 a' ha'
+    have e1 := thread_enter_pass_obj (ps .compose2) ex h args hi ha
+    have hnamed := e1.2
     have o1 := ih1 false _ _ hn.1 e1.1 hnamed
     split
     · exact o1
     · exact ih2 false _ _ hn.2 o1 hnamed
+
+/-! ### C11: the arguments of `compose(s, g1, g2)` are consumed by nobody
+
+  `Keep`: every object that existed before the call still has its value and has not been moved from.  It is kept by
+  every call operator as long as an rvalue argument only ever denotes a temporary made during the call (`Safe`), which
+  is what the `named` row of `passKind` for `compose2` establishes for both getters. -/
+
+def Safe (n0 : Nat) (a : ARef) : Prop := a.cat.stable = true ∨ n0 ≤ a.obj
+
+structure Keep (n0 : Nat) (v0 : Nat → Int) (m0 : Nat → Nat) (h : Heap) : Prop where
+  next_le : n0 ≤ h.next
+  val_eq : ∀ o, o < n0 → h.val o = v0 o
+  moves_eq : ∀ o, o < n0 → h.moves o = m0 o
+
+theorem construct_keep {n0 v0 m0 h} (hop fc : Bool) (a : ARef) (hk : Keep n0 v0 m0 h) (ha : Safe n0 a) :
+    Keep n0 v0 m0 (h.construct hop fc a) := by
+  have hle := hk.next_le
+  refine ⟨by simp only [Heap.construct]; omega, ?_, ?_⟩
+  · intro o ho
+    have h1 : o ≠ h.next := by omega
+    simp only [Heap.construct, h1, if_false]
+    by_cases hs : a.cat.stable = true
+    · simp [hs, hk.val_eq o ho]
+    · have : o ≠ a.obj := by
+        rcases ha with ha | ha
+        · exact absurd ha hs
+        · omega
+      simp [this, hk.val_eq o ho]
+  · intro o ho
+    simp only [Heap.construct]
+    by_cases hs : a.cat.stable = true
+    · simp [hs, hk.moves_eq o ho]
+    · have : o ≠ a.obj := by
+        rcases ha with ha | ha
+        · exact absurd ha hs
+        · omega
+      simp [this, hk.moves_eq o ho]
+
+theorem enterArg_fwd_keep {n0 v0 m0} (ex : Bool) (h : Heap) (a : ARef) (hk : Keep n0 v0 m0 h) (ha : Safe n0 a) :
+    Keep n0 v0 m0 (enterArg .forwardingRef ex h a).1 ∧ Safe n0 (enterArg .forwardingRef ex h a).2 := by
+  refine ⟨by simpa [enterArg] using hk, ?_⟩
+  cases ex with
+  | true => simpa [enterArg] using ha
+  | false =>
+    simp only [enterArg, Bool.false_eq_true, if_false]
+    rcases ha with ha | ha
+    · left; simp [stable_deduced ha, ha]
+    · right; exact ha
+
+theorem tupleElem_keep {n0 v0 m0} (h : Heap) (a : ARef) (hk : Keep n0 v0 m0 h) (ha : Safe n0 a) :
+    Keep n0 v0 m0 (tupleElem h a).1 ∧ Safe n0 (tupleElem h a).2 := by
+  cases hc : a.cat with
+  | lv => simp only [tupleElem, hc]; exact ⟨hk, ha⟩
+  | clv => simp only [tupleElem, hc]; exact ⟨hk, ha⟩
+  | xvE => simp only [tupleElem, hc]; exact ⟨hk, Or.inl rfl⟩
+  | xvD => simp only [tupleElem, hc]; exact ⟨construct_keep true false a hk ha, Or.inl rfl⟩
+
+theorem castTo_keep {n0 v0 m0} (h : Heap) (ka : PK × ARef) (hk : Keep n0 v0 m0 h)
+    (ha : ka.1 ≠ .rref ∧ Safe n0 ka.2) :
+    Keep n0 v0 m0 (castTo h ka).1 ∧ Safe n0 (castTo h ka).2 := by
+  obtain ⟨hne, ha⟩ := ha
+  cases hk' : ka.1 with
+  | rref => exact absurd hk' hne
+  | val =>
+    simp only [castTo, hk']
+    exact ⟨construct_keep false false ka.2 hk ha, Or.inr hk.next_le⟩
+  | cref => simp only [castTo, hk']; exact ⟨hk, Or.inl rfl⟩
+  | lref =>
+    simp only [castTo, hk']
+    refine ⟨hk, Or.inl ?_⟩
+    by_cases hc : ka.2.cat = .clv <;> simp [hc, Cat.stable]
+
+theorem takeParam_safe {n0} (k : PK) (a : ARef) (hk : k ≠ .rref) (ha : Safe n0 a) : Safe n0 (takeParam k a) := by
+  cases k with
+  | rref => exact absurd rfl hk
+  | val => exact Or.inl rfl
+  | cref => exact Or.inl rfl
+  | lref => exact ha
+
+theorem invoke_safe (n0 : Nat) (b : Bound) : Safe n0 b.invoke := by
+  cases b <;> exact Or.inl rfl
+
+theorem passOn_safe {n0} (p : PassKind) (a : ARef) (ha : Safe n0 a) : Safe n0 (passOn p a) := by
+  cases p with
+  | forward => exact ha
+  | named => left; simp only [passOn]; cases a.cat <;> rfl
+
+theorem named_safe (n0 : Nat) (a : ARef) : Safe n0 (passOn .named a) := by
+  left; simp only [passOn]; cases a.cat <;> rfl
+
+theorem thread_enter_keep {n0 v0 m0} (ex : Bool) (h : Heap) (args : List ARef) (hk : Keep n0 v0 m0 h)
+    (ha : ∀ a ∈ args, Safe n0 a) :
+    Keep n0 v0 m0 (thread (enterArg .forwardingRef ex) h args).1
+      ∧ ∀ a ∈ (thread (enterArg .forwardingRef ex) h args).2, Safe n0 a :=
+  thread_inv _ (Keep n0 v0 m0) (Safe n0) (Safe n0) (fun h a => enterArg_fwd_keep ex h a) args h hk ha
+
+theorem thread_enter_pass_keep {n0 v0 m0} (p : PassKind) (ex : Bool) (h : Heap) (args : List ARef)
+    (hk : Keep n0 v0 m0 h) (ha : ∀ a ∈ args, Safe n0 a) :
+    Keep n0 v0 m0 (thread (enterArg .forwardingRef ex) h args).1
+      ∧ ∀ a ∈ (thread (enterArg .forwardingRef ex) h args).2.map (passOn p), Safe n0 a := by
+  have e1 := thread_enter_keep ex h args hk ha
+  refine ⟨e1.1, ?_⟩
+  intro a hmem
+  obtain ⟨a', ha', rfl⟩ := List.mem_map.mp hmem
+  exact passOn_safe p a' (e1.2 a' ha')
+
+/-- entering a forwarding call operator touches no object, whatever the arguments are -/
+theorem thread_enter_any_keep {n0 v0 m0} (ex : Bool) (h : Heap) (args : List ARef) (hk : Keep n0 v0 m0 h) :
+    Keep n0 v0 m0 (thread (enterArg .forwardingRef ex) h args).1 :=
+  (thread_inv _ (Keep n0 v0 m0) (fun _ => True) (fun _ => True)
+    (fun h a hk _ => ⟨by simpa [enterArg] using hk, trivial⟩) args h hk (fun _ _ => trivial)).1
+
+theorem thread_tuple_keep {n0 v0 m0} (h : Heap) (args : List ARef) (hk : Keep n0 v0 m0 h)
+    (ha : ∀ a ∈ args, Safe n0 a) :
+    Keep n0 v0 m0 (thread tupleElem h args).1 ∧ ∀ a ∈ (thread tupleElem h args).2, Safe n0 a :=
+  thread_inv _ (Keep n0 v0 m0) (Safe n0) (Safe n0) (fun h a => tupleElem_keep h a) args h hk ha
+
+theorem mem_invokeEach_safe {n0} {bs : List Bound} {x : ARef} (h : x ∈ invokeEach Bound.invoke bs) : Safe n0 x := by
+  rw [invokeEach_eq_map] at h
+  obtain ⟨b, _, rfl⟩ := List.mem_map.mp h
+  exact invoke_safe n0 b
+
+theorem args_keep {n0 v0 m0} (pk : AdaptorKind → ParamKind) (hpk : ∀ k, pk k = .forwardingRef)
+    (ps : AdaptorKind → PassKind)
+    (n : ONode) (ex : Bool) (h : Heap) (args : List ARef) (hn : n.noRRef = true)
+    (hk : Keep n0 v0 m0 h) (ha : ∀ a ∈ args, Safe n0 a) :
+    Keep n0 v0 m0 (n.args pk ps ex h args).1 ∧ ∀ a ∈ (n.args pk ps ex h args).2, Safe n0 a := by
+  cases n with
+  | slot sig =>
+    simp only [ONode.args]
+    refine ⟨hk, ?_⟩
+    intro a hmem
+    obtain ⟨k, hk', a', ha', rfl⟩ := mem_zipWith hmem
+    refine takeParam_safe k a' ?_ (ha a' ha')
+    intro e
+    subst e
+    simp [ONode.noRRef, hk'] at hn
+  | bind loc bs =>
+    cases loc with
+    | none =>
+      simp only [ONode.args, hpk]
+      have e1 := thread_enter_keep ex h args hk ha
+      have e2 := thread_tuple_keep _ _ e1.1 e1.2
+      refine ⟨e2.1, ?_⟩
+      intro a hmem
+      rcases List.mem_append.mp hmem with hm | hm
+      · exact e2.2 a hm
+      · exact mem_invokeEach_safe hm
+    | some i =>
+      simp only [ONode.args, hpk]
+      have e1 := thread_enter_keep ex h args hk ha
+      have e2 := thread_tuple_keep _ _ e1.1 e1.2
+      refine ⟨e2.1, ?_⟩
+      intro a hmem
+      rcases List.mem_append.mp hmem with hm | hm
+      · rcases List.mem_append.mp hm with hm | hm
+        · exact e2.2 a (mem_tupleStart hm)
+        · exact mem_invokeEach_safe hm
+      · exact e2.2 a (mem_tupleEnd hm)
+  | hide loc =>
+    simp only [ONode.args, hpk]
+    have e1 := thread_enter_keep ex h args hk ha
+    have e2 := thread_tuple_keep _ _ e1.1 e1.2
+    refine ⟨e2.1, ?_⟩
+    intro a hmem
+    rcases List.mem_append.mp hmem with hm | hm
+    · exact e2.2 a (mem_tupleStart hm)
+    · exact e2.2 a (mem_tupleEnd hm)
+  | retype tys =>
+    simp only [ONode.args, hpk]
+    have e1 := thread_enter_keep ex h args hk ha
+    refine thread_inv castTo (Keep n0 v0 m0) (fun ka => ka.1 ≠ .rref ∧ Safe n0 ka.2) (Safe n0)
+      (fun h ka => castTo_keep h ka) _ _ e1.1 ?_
+    intro ka hka
+    have := mem_zip' hka
+    refine ⟨?_, e1.2 _ this.2⟩
+    intro hk'
+    rw [hk'] at this
+    simp [ONode.noRRef, this.1] at hn
+  | retypeReturn => simp only [ONode.args, hpk]; exact thread_enter_pass_keep _ ex h args hk ha
+  | hideReturn => simp only [ONode.args, hpk]; exact thread_enter_pass_keep _ ex h args hk ha
+  | bindReturn v => simp only [ONode.args, hpk]; exact thread_enter_pass_keep _ ex h args hk ha
+  | exceptionCatch => simp only [ONode.args, hpk]; exact thread_enter_pass_keep _ ex h args hk ha
+  | trackObj => simp only [ONode.args, hpk]; exact thread_enter_pass_keep _ ex h args hk ha
+  | compose1 sid => simp only [ONode.args, hpk]; exact thread_enter_pass_keep _ ex h args hk ha
+
+def LParamFresh (n0 : Nat) (p : LParam) : Prop := p.writable = true → n0 ≤ p.recv
+
+theorem leafInit_keep {n0 v0 m0} (ptr : Bool) (h : Heap) (ka : PK × ARef) (hk : Keep n0 v0 m0 h)
+    (ha : (ka.1 = .val ∨ ka.1 = .cref) ∧ Safe n0 ka.2) :
+    Keep n0 v0 m0 (leafInit ptr h ka).1 ∧ LParamFresh n0 (leafInit ptr h ka).2 := by
+  obtain ⟨hkind, ha⟩ := ha
+  rcases hkind with hkind | hkind <;> simp only [leafInit, hkind]
+  · exact ⟨construct_keep false ptr ka.2 hk ha, fun _ => hk.next_le⟩
+  · exact ⟨hk, fun hw => by simp at hw⟩
+
+theorem leafBody_keep {n0 v0 m0} (id : Nat) (lps : List LParam) :
+    ∀ (pos : Nat) (h : Heap), Keep n0 v0 m0 h → (∀ p ∈ lps, LParamFresh n0 p) →
+      Keep n0 v0 m0 (leafBody id pos lps h).1 := by
+  induction lps with
+  | nil => intro pos h hk _; exact hk
+  | cons p ps ih =>
+    intro pos h hk hp
+    simp only [leafBody]
+    apply ih
+    · split
+      · rename_i hw
+        have hfresh := hp p (by simp) hw
+        refine ⟨hk.next_le, ?_, hk.moves_eq⟩
+        intro o ho
+        simp only [Heap.set]
+        rw [if_neg (by omega)]
+        exact hk.val_eq o ho
+      · exact hk
+    · exact fun q hq => hp q (by simp [hq])
+
+theorem mem_zip_fst_all {ps : List PK} {args : List ARef} {P : PK → Bool} (hall : ps.all P = true)
+    {ka : PK × ARef} (h : ka ∈ List.zip ps args) : P ka.1 = true :=
+  List.all_eq_true.mp hall _ (mem_zip' h).1
+
+theorem leafRun_keep {n0 v0 m0} (id : Nat) (ptr : Bool) (ps : List PK) (retv : Bool) (args : List ARef) (h : Heap)
+    (hro : ps.all (fun k => k == .val || k == .cref) = true)
+    (hk : Keep n0 v0 m0 h) (ha : ∀ a ∈ args, Safe n0 a) : Keep n0 v0 m0 (leafRun id ptr ps retv args h).1 := by
+  simp only [leafRun]
+  have e1 := thread_inv (leafInit ptr) (Keep n0 v0 m0) (fun ka => (ka.1 = .val ∨ ka.1 = .cref) ∧ Safe n0 ka.2)
+    (LParamFresh n0) (fun h ka => leafInit_keep ptr h ka) (List.zip ps args) h hk
+    (fun ka hka => ⟨by simpa using mem_zip_fst_all hro hka, ha _ (mem_zip' hka).2⟩)
+  have e2 := leafBody_keep id _ 0 _ e1.1 e1.2
+  exact ⟨e2.next_le, e2.val_eq, e2.moves_eq⟩
+
+/-- called with arguments whose rvalues only denote temporaries, a functor expression whose targets take their
+    parameters by value / `const&` neither changes nor moves from any pre-existing object -/
+theorem callO_keep {n0 v0 m0} (pk : AdaptorKind → ParamKind) (hpk : ∀ k, pk k = .forwardingRef)
+    (ps : AdaptorKind → PassKind) (e : OExpr) :
+    ∀ (ex : Bool) (args : List ARef) (h : Heap), e.noRRef = true → e.readOnly = true → Keep n0 v0 m0 h →
+      (∀ a ∈ args, Safe n0 a) → Keep n0 v0 m0 (callO pk ps e ex args h).1 := by
+  induction e with
+  | leaf id ptr pks retv =>
+    intro ex args h _ hro hk ha
+    simp only [callO, hpk]
+    have e1 := thread_enter_pass_keep (ps .adaptorFunctor) ex h args hk ha
+    exact leafRun_keep id ptr pks retv _ _ hro e1.1 e1.2
+  | un n f ih =>
+    intro ex args h hn hro hk ha
+    simp only [OExpr.noRRef, Bool.and_eq_true] at hn
+    simp only [callO]
+    have e1 := args_keep pk hpk ps n ex h args hn.1 hk ha
+    exact ih _ _ _ hn.2 hro e1.1 e1.2
+  | compose2 sid g1 g2 ih1 ih2 =>
+    intro ex args h hn hro hk ha
+    simp only [OExpr.noRRef, Bool.and_eq_true] at hn
+    simp only [OExpr.readOnly, Bool.and_eq_true] at hro
+    simp only [callO, hpk]
+    have e1 := thread_enter_pass_keep (ps .compose2) ex h args hk ha
+    have o1 := ih1 false _ _ hn.1 hro.1 e1.1 e1.2
+    split
+    · exact o1
+    · exact ih2 false _ _ hn.2 hro.2 o1 e1.2
 
 end Sigc.Adapt
